@@ -215,6 +215,13 @@ def model_req(size, res, target, ms):
     return ("gen_scales", [list(size), [pc.me_of(r) for r in res], target, ms or 0])
 
 
+KEYS_GUARD = {}
+
+
+def _ck(size, res, target, ms):
+    return (tuple(size), tuple(float(r).hex() for r in res), target, ms or 0)
+
+
 def judge(R, case, impl, mod, info_in, size, res, target, ms, tiny_ok=True):
     """Compare with the model and apply the oracle; returns the canonical scales or None."""
     if impl[0] == "ok":
@@ -225,11 +232,23 @@ def judge(R, case, impl, mod, info_in, size, res, target, ms, tiny_ok=True):
         R.disagree("fill_scales_for_dyadic_pyramid vs gen_scales (outcome)", case, impl, _js(mod))
     fr = [Fraction(r) for r in res]
     reg = input_regions(size, fr, target, ms)
+    kg = KEYS_GUARD.get(_ck(size, res, target, ms))
+    if kg is not None and mod[0] == "ok" and kg == reg[F_DUP]:
+        R.count("keys_guard-vs-rational-region-mismatch")
+        if kg:
+            R.disagree("keys_guard holds although an axis was rounded up (guard vs Python region)", case, kg, reg[F_DUP])
     if impl[0] == "ok":
         for what, fid, detail in oracle(case, info_in, impl[1], reg, target, ms):
             inside = False
             if fid in (F_CHUNKS, F_ZERO):
                 inside = model_bad_class(mod) == fid
+            elif fid == F_DUP:
+                # region = negation of the extracted keys_guard (C08_keys_distinct_on_guard), which must
+                # agree with the independent restatement on rationals
+                kg = KEYS_GUARD.get(_ck(size, res, target, ms))
+                if kg is None:
+                    kg = R.model.call("keys_guard", model_req(size, res, target, ms)[1]) == "true"
+                inside = (not kg) and reg[fid]
             elif fid is not None:
                 inside = reg[fid]
             if inside:
@@ -295,10 +314,12 @@ def run(R):
         size = [rng.choice(SIZES) for _ in range(3)]
         cases.append((size, [2 ** k for k in d], 2 ** rng.randrange(0, 5), rng.choice([None, 0, 2, 5])))
     replies = R.model.batch([model_req(*c) for c in cases])
+    guards = R.model.batch([("keys_guard", model_req(*c)[1]) for c in cases])
     small_infos = []
-    for (size, res, target, ms), rep in zip(cases, replies):
+    for (size, res, target, ms), rep, kg in zip(cases, replies, guards):
         impl, info_in, info = run_impl(size, res, target, ms)
         mod = model_outcome(rep)
+        KEYS_GUARD[_ck(size, res, target, ms)] = (kg == "true")
         case = {"size": size, "resolution": [r if isinstance(r, int) else float(r).hex() for r in res],
                 "target": target, "max_scales": ms}
         aniso = len({Fraction(r) for r in res}) > 1
